@@ -138,3 +138,43 @@ def selfcheck(pid, cfg, BUILD, VERIF):
                 if st != 'ok':
                     bad += 1
     return 1 if bad else 0
+
+
+def run_bounded_units(res, pc, src, BUILD, VERIF, tier):
+    """Standing bounded stand-ins for functions that no verifier here can read (labelled bounded, never counted as
+    proved): executable contract checks over an exhaustively enumerated small universe, run natively on the real crate."""
+    units = list(pc.get('bounded', [])) + (pc.get('bounded_thorough', []) if tier == 'thorough' else [])
+    for bu in units:
+        wf = os.path.join(VERIF, 'contracts', 'witness', bu['file'])
+        info = dict(unit=bu['name'], back_end='native exhaustive small-scope check (BOUNDED stand-in, not a proof)', bound=bu['bound'],
+                    functions=bu.get('functions', []), tests=bu['tests'], status='?')
+        res.units.append(info)
+        import time
+        t0 = time.time()
+        results, tail, cmd = run_native_test(src, BUILD, _crate_of(wf), wf, bu['name'], bu['tests'], timeout=bu.get('timeout_s', 3600))
+        info['wall_s'] = round(time.time() - t0, 1)
+        res.checker_cmds.append(cmd)
+        if results is None:
+            info['status'] = 'undecided'
+            res.undecided.append('bounded unit %s could not run (build failure of the copied tree?): %s' % (bu['name'], str(tail)[-300:].replace('\n', ' ')))
+            continue
+        missing = [t for t in bu['tests'] if t not in results]
+        if missing:
+            info['status'] = 'undecided'
+            res.undecided.append('bounded unit %s: tests did not run: %s' % (bu['name'], ', '.join(missing)))
+            continue
+        bad = [(t, results[t][1]) for t in bu['tests'] if results[t][0] != 'ok']
+        res.extra.setdefault('bounded_standins', []).append(dict(unit=bu['name'], bound=bu['bound'], functions=bu.get('functions', []), tests=len(bu['tests']),
+                                                                 passed=len(bu['tests']) - len(bad), note='bounded - NOT counted in obligations/discharged'))
+        for f in bu.get('functions', []):
+            res.functions.append(dict(file=f['file'], fn=f['fn'], back_end='native bounded stand-in', strength='B(' + bu['bound'] + ')', rewrites=[], clauses=[]))
+        if bad:
+            info['status'] = 'violation'
+            for t, msg in bad:
+                ob = '%s/%s :: bounded contract check failed' % (bu['name'], t)
+                w = dict(kind='native-test', crate=_crate_of(wf), unit=bu['name'], test=t, message=msg, cmd=cmd, file=os.path.relpath(wf, VERIF))
+                rp = os.path.join(VERIF, 'replay', '%s_%s.json' % (res.pid, _norm(ob)[:80]))
+                json.dump(dict(property=res.pid, kind='native-test', obligation=ob, unit=bu['name'], fn=t, clause='', verifier_reason='bounded stand-in', witness=w), open(rp, 'w'), indent=1)
+                res.violations.append(dict(unit=bu['name'], fn=t, clause='', obligation=ob, reason='bounded stand-in failed', where='', rendered=msg, witness=w, replay=rp, back_end='native'))
+        else:
+            info['status'] = 'pass'
